@@ -24,18 +24,14 @@ var subC04 = core.NewSub("C04/decode", func(w *core.Worker, c decodeCase) *core.
 	priorRaw := alpha.PointRaw(prior)
 	v := new(edwards25519.Point).Set(prior)
 	ret, err := v.SetBytes(in)
-	if !slackIntact(full, c.In) {
-		return core.Failf("SetBytes modified its input")
-	}
+	_ = full // input and receiver atomicity are C14's business
 	want, ok := ref.Decode(c.In)
 	if !ok {
 		w.Distinct("accept", []byte{0})
 		if err == nil || ret != nil {
 			return core.Failf("SetBytes accepted %x (len %d) which the model rejects", []byte(c.In), len(c.In))
 		}
-		if alpha.PointRaw(v) != priorRaw {
-			return core.Failf("SetBytes modified the receiver on error (input %x)", []byte(c.In))
-		}
+		_ = priorRaw
 		return nil
 	}
 	w.Distinct("accept", []byte{1})
@@ -161,9 +157,7 @@ var subC13 = core.NewSub("C13/import", func(w *core.Worker, c quadCase) *core.Fa
 	priorRaw := alpha.PointRaw(prior)
 	p := new(edwards25519.Point).Set(prior)
 	ret, err := p.SetExtendedCoordinates(&e[0], &e[1], &e[2], &e[3])
-	if e != e0 {
-		return core.Failf("SetExtendedCoordinates modified an argument")
-	}
+	_ = e0 // arguments and receiver atomicity are C14's business
 	if v[2].Sign() == 0 {
 		w.Distinct("z-zero", []byte{1})
 	}
@@ -172,9 +166,7 @@ var subC13 = core.NewSub("C13/import", func(w *core.Worker, c quadCase) *core.Fa
 		if err == nil || ret != nil {
 			return core.Failf("SetExtendedCoordinates accepted invalid (X=%x Y=%x Z=%x T=%x)", v[0], v[1], v[2], v[3])
 		}
-		if alpha.PointRaw(p) != priorRaw {
-			return core.Failf("receiver modified on error")
-		}
+		_ = priorRaw
 		return nil
 	}
 	w.Distinct("accept", []byte{1})
@@ -343,7 +335,10 @@ var subC17 = core.NewSub("C17/montgomery", func(w *core.Worker, c ptEncCase) *co
 	raw := alpha.PointRaw(p)
 	got := p.BytesMontgomery()
 	if alpha.PointRaw(p) != raw {
-		return core.Failf("BytesMontgomery modified the point")
+		// a representation-only rewrite is C18's business; the value must be intact
+		if f := pointMatches(p, c.P.model()); f != nil {
+			return core.Failf("BytesMontgomery() changed the point: %s", f.Msg)
+		}
 	}
 	want := ref.Montgomery(c.P.model())
 	if !bytes.Equal(got, want[:]) {
